@@ -7,7 +7,9 @@ status and touches neither the ACL components, nor the local storage, nor other 
    are recording fakes, enumerates the RPCs of the generated ObjectServiceServer interface by reflection and
    calls every client operation with requests that are valid in every respect - once with maintenance off
    (control: the very same request reaches the handlers, the storage, other nodes and is answered OK) and once
-   with maintenance on.
+   with maintenance on; PUT streams are also driven with maintenance switched on in mid-stream (after the heading /
+   after the first chunk was taken by the server); SEARCH also with degenerate queries that the query preprocessor
+   answers without any lookup.
 3. TLC judges the recorded events: C45_MaintenanceRefusal must hold in every recorded state (Strict = FALSE),
    and the whole trace must be a behaviour of the pipeline model (Strict = TRUE; a rejection there alone is a
    model drift = exit 2, not a verdict)."""
@@ -18,7 +20,7 @@ import rpc_util
 import vkit
 
 LEVEL = "exploration"
-CLS_FIELDS = ["sig", "maint", "body", "tok", "basic", "ereq", "ehdr", "cnr", "obj", "ttl", "as", "flags", "peer"]
+CLS_FIELDS = ["sig", "maint", "body", "tok", "basic", "ereq", "ehdr", "cnr", "obj", "ttl", "as", "flags", "peer", "maint_at"]
 
 
 def run(ck):
@@ -39,7 +41,9 @@ def run(ck):
 
     client_ops = {"Get", "Head", "GetRange", "Put", "Delete", "SearchV2"}
     on = [c for c in calls if c["cls"]["maint"] and c["m"] in client_ops]
-    off = [c for c in calls if not c["cls"]["maint"] and c["m"] in client_ops]
+    flips = [c for c in calls if c["cls"].get("maint_at") and c["m"] in client_ops]
+    on += flips
+    off = [c for c in calls if not c["cls"]["maint"] and not c["cls"].get("maint_at") and c["m"] in client_ops]
     findings = rpc_util.judge(ck, "TraceObjectRPC", "TraceObjectRPC_c45.cfg", "TraceObjectRPC_strict.cfg", calls, tag="c45")
     for f in findings:
         c = f["call"]
@@ -53,11 +57,16 @@ def run(ck):
         for c in off:
             kinds = {e.get("a") for e in c["events"] if e["ev"] == "Eff"}
             rep = c["events"][-1]
-            if not kinds or rep["code"] >= 1024 or rep["grpc"]:
+            degenerate = any(f in c["cls"].get("flags", "") for f in ("q_notpresent", "q_numgt"))   # answered without any lookup
+            if (not kinds and not degenerate) or rep["code"] >= 1024 or rep["grpc"]:
                 raise vkit.Infra("control call is not served (vacuous class): %s -> %s" % (json.dumps({"m": c["m"], "cls": c["cls"]}), json.dumps(c["events"])))
         missing = client_ops - {c["m"] for c in on}
         if missing or len(on) < 6:
             raise vkit.Infra("no maintenance-on call for %s" % sorted(missing))
+        if len(flips) < 4 or not all(any(e["ev"] == "Flip" for e in c["events"]) for c in flips):
+            raise vkit.Infra("mid-stream maintenance classes of PUT are missing (%d)" % len(flips))
+        if not any("q_notpresent" in c["cls"].get("flags", "") and c["cls"]["maint"] for c in calls):
+            raise vkit.Infra("degenerate search queries under maintenance are missing")
         eff_kinds = sorted({e.get("a") for c in off for e in c["events"] if e["ev"] == "Eff"})
         ck.setcov("control_effect_kinds", eff_kinds)
         if not {"handler", "read", "write", "conn", "remote"} <= set(eff_kinds):
